@@ -32,7 +32,6 @@ import (
 	"github.com/opencontainers/go-digest"
 	specs "github.com/opencontainers/image-spec/specs-go"
 	ocispec "github.com/opencontainers/image-spec/specs-go/v1"
-	"oras.land/oras-go/v2/content"
 	"oras.land/oras-go/v2/errdef"
 	"oras.land/oras-go/v2/internal/container/set"
 	"oras.land/oras-go/v2/internal/descriptor"
@@ -213,7 +212,10 @@ func (s *Store) delete(ctx context.Context, target ocispec.Descriptor) ([]ocispe
 	resolvers := s.tagResolver.Map()
 	untagged := make(map[string]ocispec.Descriptor)
 	for reference, desc := range resolvers {
-		if content.Equal(desc, target) {
+		// the blob goes away, and with it whatever names its digest: a reference
+		// tagged under another media type of the same content must not stay
+		// behind as an index entry without a blob
+		if desc.Digest == target.Digest {
 			s.tagResolver.Untag(reference)
 			untagged[reference] = desc
 		}
